@@ -21,5 +21,5 @@ CONSTANTS
   SlackSched = 0
 INVARIANTS Inv_C06 Inv_C06Drain C06_NotStuckAfterDeadline
 INVARIANTS Inv_C15 C15_CountersTrackDelivery
-INVARIANTS C18_NoLeak C18_ServeWaits C18_SocketsFollowHandler
+INVARIANTS C18_NoLeak C18_AllReturned C18_ServeWaits C18_SocketsFollowHandler
 VIEW View
